@@ -251,7 +251,7 @@ func TestReplay(t *testing.T) { kit.RunReplay(t) }
 var endings = []string{"", "", "\n", "    code", "\tcode", "```\ncode", "~~~\nx\n  y", "- a\n\n      code", "> ```\n> a", "<div>\nx", "[a]: /u 'T", "| a | b |\n|---|---|\n| c", "# h {#i}", "[^1]: x\n    y"}
 
 func TestReadOnly(t *testing.T) {
-	kit.Rapid(t, "readonly", 200000, 2500000, func(t *rapid.T) {
+	kit.Rapid(t, "readonly", 200000, 10000000, func(t *rapid.T) {
 		cfg := gen.DrawConfig(t, gen.ConfigOpts{})
 		src, class := gen.Doc(t, gen.Any, kit.Pick(30, 80), "d")
 		// documents that end without a newline inside a block are the ones
@@ -277,7 +277,7 @@ func TestReadOnly(t *testing.T) {
 var utilSoup = &gen.Profile{Name: "util", Extra: []string{"&amp;", "&#65;", "&#x41;", "&#0;", "&ouml;", "%20", "%4g", "%", "\\*", "\\\\", " ", "\t", "\n", "A", "ß", "İ", "<", ">", "\"", "&", "  ", "a"}}
 
 func TestUtil(t *testing.T) {
-	kit.Rapid(t, "util", 200000, 2000000, func(t *rapid.T) {
+	kit.Rapid(t, "util", 200000, 8000000, func(t *rapid.T) {
 		fn := rapid.SampledFrom(utilNames).Draw(t, "fn")
 		var src []byte
 		if rapid.Bool().Draw(t, "bytes") {
